@@ -497,6 +497,8 @@ def _flatten(*list_of_arrays):
     kwargs = dict(indexing="ij")
     grd = np.meshgrid(*list_of_arrays, **kwargs)
     array_of_tuples = np.array(list(zip(*[g.ravel() for g in grd])))
+    if array_of_tuples.size == 0: # no combination at all (an empty axis): keep the 2-D layout
+        array_of_tuples = array_of_tuples.reshape(0, len(list_of_arrays))
     assert array_of_tuples.shape[1] == len(list_of_arrays), "pb when reshaping: {} and {}".format(array_of_tuples.shape, len(list_of_arrays))
     assert array_of_tuples.shape[0] == np.prod([x.size for x in list_of_arrays]), "pb when reshaping: {} and {}".format(array_of_tuples.shape, np.prod([x.size for x in list_of_arrays]))
     return array_of_tuples
